@@ -72,11 +72,34 @@ func WrapDnsResponse(msg *dns.Msg, data []byte, queryType dnsmessage.Type, domai
 	return errors.Errorf("Unknown query type: %v", queryType)
 }
 
+// padToRecords prepares data for record types of a fixed size (A, AAAA), which can only be packed when every
+// record is full: the data is prefixed with the number of padding octets and padded to a multiple of size.
+func padToRecords(data []byte, size int) []byte {
+	if len(data) == 0 {
+		return data
+	}
+	pad := (size - (len(data)+1)%size) % size
+	padded := make([]byte, 0, len(data)+1+pad)
+	padded = append(padded, byte(pad))
+	padded = append(padded, data...)
+	padded = append(padded, make([]byte, pad)...)
+	return padded
+}
+
+// unpadRecords reverses padToRecords. Data which was not produced by padToRecords yields nothing.
+func unpadRecords(data []byte) []byte {
+	if len(data) == 0 || int(data[0]) > len(data)-1 {
+		return nil
+	}
+	return data[1 : len(data)-int(data[0])]
+}
+
 // WrapDnsResponseA will wrap the data into a A-type DNS response message
 func WrapDnsResponseA(msg *dns.Msg, data []byte, domain string) error {
 	msg.Authoritative = true
 
 	order := uint16(0)
+	data = padToRecords(data, 3)
 
 	for len(data) > 0 {
 		order += 1
@@ -114,6 +137,7 @@ func WrapDnsResponseAAAA(msg *dns.Msg, data []byte, domain string) error {
 	msg.Authoritative = true
 
 	order := uint16(0)
+	data = padToRecords(data, 14)
 
 	for len(data) > 0 {
 		order += 1
@@ -420,6 +444,7 @@ func wellFormedAnswer(rr dns.RR, domain string) bool {
 // UnwrapDnsResponse will decode the DNS message and return the bytes in the response
 func UnwrapDnsResponse(q *dns.Msg, domain string) []byte {
 	resp := make([]byte, 0)
+	fixed := make([]byte, 0) // data of the fixed-size records (A, AAAA), padded to whole records
 	answers := make([]dns.RR, 0, len(q.Answer))
 	for _, rr := range q.Answer {
 		if wellFormedAnswer(rr, domain) {
@@ -458,12 +483,13 @@ func UnwrapDnsResponse(q *dns.Msg, domain string) []byte {
 			resp = append(resp, data...)
 		case *dns.AAAA:
 			// Remove first two bytes
-			resp = append(resp, v.AAAA[2:]...)
+			fixed = append(fixed, v.AAAA[2:]...)
 		case *dns.A:
 			// Remove first byte
-			resp = append(resp, v.A[1:]...)
+			fixed = append(fixed, v.A[1:]...)
 		}
 	}
+	resp = append(resp, unpadRecords(fixed)...)
 
 	return resp
 }
